@@ -43,6 +43,10 @@ def annotate_copy(op):
         viol.add(ESLEMAX); names.append("slen-max")
     if bounded and m["sbos"] is not None and slen > m["sbos"]:
         viol.add(EOVERFLOW); names.append("slen-bos")
+    if fn == "stpcpy_s" and m["sbos"] is not None and m["src"] is not None and 0 not in m["srccells"][:m["sbos"]]:
+        viol.add(ESUNTERM); names.append("src-unterm-in-bos")      # "ESUNTERM when src is unterminated" (within its known size)
+        if not (viol - {ESUNTERM}):
+            viol |= {ESNOSPC, ESOVRLP} if m.get("place") == "arena" else {ESNOSPC}   # whichever the loop meets first
     if not viol:
         prior = m["prior"][:dmax]
         sc = m["srccells"]
